@@ -51,7 +51,7 @@ def _values_for(key):
         return st.lists(st.sampled_from([50.0, 150.0, 200.0, 250.0, 300.0]), min_size=1, max_size=3, unique=True)
     if key.endswith("other"):
         return st.lists(st.sampled_from([0.0, 1.5, 2.25, 7.75]), min_size=1, max_size=3, unique=True)
-    return st.lists(st.integers(1, 40), min_size=1, max_size=4, unique=True)
+    return st.lists(st.one_of(st.integers(0, 40), st.sampled_from([0, 1])), min_size=1, max_size=4, unique=True)  # 0: falsy but valid
 
 
 @st.composite
